@@ -615,17 +615,20 @@ def gen_lr_cases(rng):
     for _ in range(3):
         r = rng.random()
         i = rng.randint(0, len(cum) - 1)
+        dyadic = True        # every intermediate of the implementation's computation is then exact in binary64
         if r < 0.25: d = cum[i]
         elif r < 0.55:
             j = rng.randint(0, len(cum) - 2); d = cum[j] + (cum[j + 1] - cum[j]) * dy()
-        elif r < 0.7: d = -(cum[i] if rng.random() < 0.5 else total * dy())
+        elif r < 0.7:
+            if rng.random() < 0.5: d = cum[i] - total
+            else: d = -(total * dy()); dyadic = False
         elif r < 0.8: d = total + rng.choice([0, 1, Fr(1, 2), 100])
         elif r < 0.85: d = -(total + rng.choice([0, 1, 7]))
-        else: d = Fr(rng.randint(-5, 5 + int(total)) * 8 + rng.randint(0, 7), 8)
+        else: d = Fr(rng.randint(-5, 5 + int(total)) * 8 + rng.randint(0, 7), 8); dyadic = False
         if not exact:
             d = Fr(float(d))
-        out.append(dict(base, q='interp', d=d))
-        out.append(dict(base, q='loc', d=d, mode=rng.choice([0, 1, 2])))
+        out.append(dict(base, q='interp', d=d, dyadic=dyadic and exact))
+        out.append(dict(base, q='loc', d=d, mode=rng.choice([0, 1, 2]), dyadic=dyadic and exact))
     # fractions for substring / normalized
     for _ in range(2):
         s, e = dy(16), dy(16)
@@ -638,6 +641,7 @@ def gen_lr_cases(rng):
     for _ in range(3):
         r = rng.random()
         a, b = rng.choice(flat)
+        dyadic = exact
         if r < 0.3:
             p = rng.choice([a, b])
         elif r < 0.75 and not fpm:
@@ -645,10 +649,11 @@ def gen_lr_cases(rng):
             p = (a[0] + (b[0] - a[0]) * t - (b[1] - a[1]) * k, a[1] + (b[1] - a[1]) * t + (b[0] - a[0]) * k)
             p = (float(p[0]), float(p[1])) if p[0].denominator != 1 or p[1].denominator != 1 else (int(p[0]), int(p[1]))
         else:
+            dyadic = False
             xs = [q[0] for c in comps for q in c]; ys = [q[1] for c in comps for q in c]
             p = (rng.uniform(min(xs) - 5, max(xs) + 5), rng.uniform(min(ys) - 5, max(ys) + 5)) if fpm or rng.random() < 0.3 else \
                 (rng.randint(int(min(xs)) - 5, int(max(xs)) + 5), rng.randint(int(min(ys)) - 5, int(max(ys)) + 5))
-        out.append(dict(base, q='proj', pt=p))
+        out.append(dict(base, q='proj', pt=p, dyadic=dyadic))
     return out
 
 
@@ -698,7 +703,7 @@ def model_line(c, out):
     if k == 'node':
         outs = lines_of(out[0])
         K = scale_of(all_vals([c['lines'], outs]))
-        if K > 2 ** 400:
+        if K > 2 ** 80 or sum(len(l) - 1 for l in outs) > 90:
             return None
         ii = ilines(c['lines'], K); oo = ilines(outs, K)
         M = max([abs(v) for l in ii for p in l for v in p] + [1])
@@ -749,6 +754,15 @@ def judge_all(ctx, drv, cases, shrink=False):
         for e in extra_lines(c):
             hl.append(e); idx.append((i, e.split(' ', 1)[0]))
     outs = par_run_lines(ctx, [HEXE], hl, 900 if not ctx.quick else 300)
+    import time as _t
+    for attempt in range(3):
+        again = [j for j, o in enumerate(outs) if o.startswith('CRASH') or o in ('TIMEOUT', 'MISSING', '')]
+        if not again or len(again) > 2000:
+            break
+        _t.sleep(2 + 5 * attempt)
+        for j in again:
+            outs[j] = ctx.run_lines([HEXE], [hl[j]], timeout=60)[0]
+    ctx.notes['harness_retries'] = ctx.notes.get('harness_retries', 0)
     ctx.log('harness: %d requests' % len(hl))
     res = {}
     for (i, tag), line, o in zip(idx, hl, outs):
@@ -815,7 +829,7 @@ def judge_case(ctx, c, line, o, po, mres, allres, st):
     bad = []
     k = c['kind']
     def crash(o):
-        return o.startswith('CRASH') or o == 'TIMEOUT' or o == 'MISSING'
+        return o.startswith('CRASH') or o in ('TIMEOUT', 'MISSING', '')
     if crash(o):
         ctx.count(line, True)
         return [('no-crash', 'implementation %s on %s' % (o[:200], line[:200]), None)]
@@ -825,7 +839,11 @@ def judge_case(ctx, c, line, o, po, mres, allres, st):
     if k in ('merge', 'node', 'poly', 'shared'):
         if po is None:
             ctx.count(line, True)
-            return bad + [('returns-a-result', 'implementation answered %s' % o[:300], None)]
+            kf = None
+            if k == 'node' and c['op'] == 'NODE' and 'Iterated noding failed to converge' in o and \
+                    any(isinstance(v, float) and v != int(v) for l in c['lines'] for p in l for v in p):
+                kf = find_known(ctx, 'C19-F2')
+            return bad + [('returns-a-result', 'implementation answered %s' % o[:300], kf)]
         if mres is None:
             st(k + ':unjudged'); ctx.count(line, False); return bad
         ml, mo = mres
@@ -862,7 +880,10 @@ def judge_case(ctx, c, line, o, po, mres, allres, st):
                 if n == 'kernel-agrees':
                     ctx.broken.append(dict(kind='correspondence', name='seg_ok vs KernelDefs.seg_class', detail=ml[:2000]))
                 else:
-                    bad.append((n, w, None))
+                    kf = None
+                    if n == 'node-input-vertex-on-output' and c['op'] == 'UU' and lost_only_isolated_points(c['lines'], lines_of(po[0])):
+                        kf = find_known(ctx, 'C19-F3')
+                    bad.append((n, w, kf))
     elif k == 'poly':
         polys = polys_of(po[0]); dang = lines_of(po[1]); cuts = lines_of(po[2])
         if dang: st('poly:with_dangle')
@@ -921,9 +942,25 @@ def judge_case(ctx, c, line, o, po, mres, allres, st):
     return bad
 
 
-def qpt_of(s):
+def lost_only_isolated_points(ins, outs):
+    """key of C19-F3: every input vertex missing from the output belongs to a zero-length input line and lies on no other input line"""
+    osegs = [(a, b) for l in outs for a, b in zip(l, l[1:])]
+    def on_out(p):
+        return any(d2_pt_seg(p, a, b) == 0 for a, b in osegs) or any(p == q for l in outs for q in l)
+    lost = [p for l in ins for p in l if not on_out(p)]
+    if not lost:
+        return False
+    for p in lost:
+        zero = [l for l in ins if all(q == l[0] for q in l) and l[0] == p]
+        others = [(a, b) for l in ins if not all(q == l[0] for q in l) for a, b in zip(l, l[1:])]
+        if not zero or any(d2_pt_seg(p, a, b) == 0 for a, b in others):
+            return False
+    return True
+
+
+def qpt_of(s, K=1):
     x, y = s.split(',')
-    return (Fr(x), Fr(y))
+    return (Fr(x) / K, Fr(y) / K)
 
 
 def judge_lr(ctx, c, line, o, po, mres, allres, st):
@@ -932,9 +969,10 @@ def judge_lr(ctx, c, line, o, po, mres, allres, st):
     lens = comp_lens(comps, exact)
     total = sum(sum(x) for x in lens)
     multi = len(comps) > 1
-    tol = Fr(0) if exact else (total + 1) * Fr(1, 10 ** 11)
-    ptol = tol + (0 if exact else Fr(max(abs(float(v)) for cc in comps for p in cc for v in p)) * Fr(1, 10 ** 12))
-    st('lr:exact' if exact else 'lr:tolerance')
+    dyadic = bool(c.get('dyadic')) and exact
+    tol = Fr(0) if dyadic else (total + 1) * Fr(1, 10 ** 11)
+    ptol = tol + (0 if dyadic else Fr(max(abs(float(v)) for cc in comps for p in cc for v in p) + 1) * Fr(1, 10 ** 12))
+    st('lr:exact' if dyadic else 'lr:tolerance')
     if multi: st('lr:multi')
     qn = c['q']
     nontriv = sum(len(x) for x in lens) >= 2
@@ -944,6 +982,7 @@ def judge_lr(ctx, c, line, o, po, mres, allres, st):
     if mo.startswith(('CRASH', 'TIMEOUT', 'PARSE', 'ERROR', '?')):
         ctx.broken.append(dict(kind='checker', name='drv_C19 lr', detail='%s\n%s' % (ml[:1500], mo[:500])))
         return bad
+    KS = scale_of(all_vals([comps]))
     flat = [(a, b) for cc in comps for a, b in zip(cc, cc[1:])]
     def near_line(p, t):
         return min(d2_pt_seg(p, a, b) for a, b in flat) <= t * t
@@ -954,10 +993,10 @@ def judge_lr(ctx, c, line, o, po, mres, allres, st):
         ctx.count(line, nontriv and d != 0)
         if po is None or po[0][0] != 'PT' or po[0][1] is None:
             return bad + [('interpolate-returns-point', 'implementation answered %s' % o[:200], None)]
-        ip = (Fr(po[0][1][0]), Fr(po[0][1][1])); mp = qpt_of(mo)
+        ip = (Fr(po[0][1][0]), Fr(po[0][1][1])); mp = qpt_of(mo, KS)
         if abs(ip[0] - mp[0]) > ptol or abs(ip[1] - mp[1]) > ptol:
             # near a component boundary the rounded running totals may resolve to the other side: accept a point at the same length
-            if exact or not multi or not near_line(ip, ptol):
+            if dyadic or not multi or not near_line(ip, ptol):
                 bad.append(('interpolate-equals-model', 'GEOSInterpolate%s_r = (%s, %s), model (%s, %s)' % ('Normalized' if qn == 'interpn' else '', float(ip[0]), float(ip[1]), float(mp[0]), float(mp[1])), None))
     elif qn == 'loc':
         ctx.count(line, nontriv)
@@ -966,9 +1005,9 @@ def judge_lr(ctx, c, line, o, po, mres, allres, st):
             return bad + [('location-returns', 'implementation answered %s' % o[:200], None)]
         if c['d'] in [sum(sum(x) for x in lens[:i]) + sum(lens[i][:j]) for i in range(len(lens)) for j in range(len(lens[i]) + 1)]:
             st('lr:at_vertex')
-        same = w[0] == mw[0] and w[1] == mw[1] and abs(Fr(float(w[2])) - Fr(mw[2])) <= (0 if exact else Fr(1, 10 ** 9))
+        same = w[0] == mw[0] and w[1] == mw[1] and abs(Fr(float(w[2])) - Fr(mw[2])) <= (0 if dyadic else Fr(1, 10 ** 9))
         if not same:
-            if exact:
+            if dyadic:
                 bad.append(('location-equals-model', 'LengthLocationMap::getLocation = %s, model %s' % (o, mo), None))
             else:
                 # compare the positions instead of the indices (rounded totals may put the location on the neighbouring segment)
@@ -986,7 +1025,7 @@ def judge_lr(ctx, c, line, o, po, mres, allres, st):
             return bad + [('substring-returns', 'implementation answered %s' % o[:200], None)]
         ls = lines_of(po[0])
         mf = mo.split(' ; ')
-        mlines = [[qpt_of(t) for t in f.split()] for f in mf[1:]]
+        mlines = [[qpt_of(t, KS) for t in f.split()] for f in mf[1:]]
         # property clause: the requested length fraction
         def flen(ls):
             return sum(math.hypot(float(b[0]) - float(a[0]), float(b[1]) - float(a[1])) for l in ls for a, b in zip(l, l[1:]))
@@ -998,7 +1037,7 @@ def judge_lr(ctx, c, line, o, po, mres, allres, st):
             ctx.broken.append(dict(kind='correspondence', name='substring_length on the model', detail='%s -> %s, expected %s' % (ml[:500], mf[0], want)))
         il = [[(Fr(x), Fr(y)) for x, y in l] for l in ls]
         okm = len(il) == len(mlines) and all(len(a) == len(b) and all(abs(p[0] - q[0]) <= ptol and abs(p[1] - q[1]) <= ptol for p, q in zip(a, b)) for a, b in zip(il, mlines))
-        if not okm and (exact or not multi):
+        if not okm and not multi:
             bad.append(('substring-equals-model', 'GEOSLineSubstring_r(%s, %s) = %s, model %s' % (float(s), float(e), o[:300], mo[:300]), None))
     elif qn == 'proj':
         p = c['pt']
@@ -1009,6 +1048,9 @@ def judge_lr(ctx, c, line, o, po, mres, allres, st):
             return bad + [('project-returns', 'implementation answered %s' % o[:200], None)]
         mw = mo.split()
         mlen = Fr(mw[0]); md2 = Fr(mw[4])
+        fden = Fr(mw[3]).denominator
+        if dyadic and (fden & (fden - 1)) != 0:      # the nearest segment is not the one the point was constructed for
+            dyadic = False; tol = (total + 1) * Fr(1, 10 ** 11)
         K = scale_of(all_vals([comps]) + list(p))
         dmin2 = min(d2_pt_seg(p, a, b) for a, b in flat)
         if Fr(md2) / (K * K) != dmin2:
@@ -1019,7 +1061,7 @@ def judge_lr(ctx, c, line, o, po, mres, allres, st):
             return ds[1] if len(ds) > 1 else None
         if abs(Fr(d) - mlen) > tol:
             sb = second_best()
-            tie = sb is not None and (sb == dmin2 if exact else abs(math.sqrt(float(sb)) - math.sqrt(float(dmin2))) <= 1e-9 * (1 + math.sqrt(float(dmin2))))
+            tie = sb is not None and (sb == dmin2 if dyadic else abs(math.sqrt(float(sb)) - math.sqrt(float(dmin2))) <= 1e-9 * (1 + math.sqrt(float(dmin2))))
             if not tie:
                 bad.append(('project-equals-model', 'GEOSProject_r = %r, model %s' % (d, float(mlen)), None))
         # the property clause itself: the point interpolated at the projected distance is the nearest location on the line
@@ -1029,7 +1071,7 @@ def judge_lr(ctx, c, line, o, po, mres, allres, st):
         else:
             q = (Fr(o2[0]), Fr(o2[1]))
             dq = math.sqrt(float((Fr(p[0]) - q[0]) ** 2 + (Fr(p[1]) - q[1]) ** 2)); dm = math.sqrt(float(dmin2))
-            slack = 1e-9 * (1 + dm + float(total)) if not exact else 1e-12 * (1 + dm)
+            slack = 1e-9 * (1 + dm + float(total))
             if dq > dm + slack:
                 # key of the known finding: MultiLineString, the nearest location is the start of a component other than the first
                 key = False
